@@ -27,6 +27,8 @@ def run(ctx: Ctx) -> None:
     ctx.floor("T16.wlcc", 2)
     t16_losses.run_rand_sample(ctx)
     ctx.floor("T16.rand-sample", 4)
+    t16_losses.run_sample_mask(ctx)
+    ctx.floor("T16.sample-mask", 2)
     with ctx.parallel():  # (each obligation builds its own environment)
         t16_losses.run_mi_symmetry(ctx)
     ctx.floor("T16.mi-symmetry", 12)
